@@ -182,6 +182,25 @@ def isPanic (r : Res ε α) : Bool := r.panicSite?.isSome
 /-- The outcome is not a panic. -/
 def NoPanic (r : Res ε α) : Prop := ∀ s, r ≠ panic s
 
+/-- Outcome class of a result: the success value is dropped (this is what the correspondence run
+compares and what witnesses are stated about; it has decidable equality). -/
+inductive Cls (ε : Type) where
+  | ok
+  | err (e : ε)
+  | panic (s : Site)
+  deriving DecidableEq, Repr
+
+def cls : Res ε α → Cls ε
+  | ok _ => .ok
+  | err e => .err e
+  | panic s => .panic s
+
+theorem cls_eq_panic {r : Res ε α} {s : Site} : r.cls = .panic s ↔ r = panic s := by
+  cases r <;> simp [cls]
+
+theorem cls_eq_err {r : Res ε α} {e : ε} : r.cls = .err e ↔ r = err e := by
+  cases r <;> simp [cls]
+
 /-- `Option::ok_or(e)?`. -/
 @[inline] def ofOption (e : ε) : Option α → Res ε α
   | some a => ok a
@@ -309,19 +328,26 @@ inductive OpArg where
   | tag (name : String)
   deriving Repr, DecidableEq, Inhabited
 
-/-- The operator of an `Operation<(), OperatorArgument>`. -/
-inductive FilterOp where
-  | isNull | isNotNull
+/-- The binary operators of `ir::Operation`. -/
+inductive BinOp where
   | equals | notEquals | lessThan | lessThanOrEqual | greaterThan | greaterThanOrEqual
   | contains | notContains | oneOf | notOneOf
   | hasPrefix | notHasPrefix | hasSuffix | notHasSuffix | hasSubstring | notHasSubstring
   | regexMatches | notRegexMatches
   deriving Repr, DecidableEq, Inhabited
 
-/-- `FilterDirective { operation }`: `arg = none` exactly for the two unary operators. -/
-structure FilterDirective where
-  op : FilterOp
-  arg : Option OpArg
+/-- The operator named by `@filter(op: ..)`. -/
+inductive FilterOp where
+  | isNull | isNotNull
+  | bin (op : BinOp)
+  deriving Repr, DecidableEq, Inhabited
+
+/-- `FilterDirective { operation: Operation<(), OperatorArgument> }`: as in the Rust enum, the two
+unary variants carry no right operand and every binary variant carries one. -/
+inductive FilterDirective where
+  | isNull
+  | isNotNull
+  | binary (op : BinOp) (arg : OpArg)
   deriving Repr, DecidableEq, Inhabited
 
 structure OutputDirective where
@@ -432,48 +458,58 @@ def parseOperands : List GValue → PRes (List OpArg)
 
 /-- The operator table at directives.rs:169–194. -/
 def filterOpTable : List (String × FilterOp) :=
-  [("is_null", .isNull), ("is_not_null", .isNotNull), ("=", .equals), ("!=", .notEquals),
-   ("<", .lessThan), ("<=", .lessThanOrEqual), (">", .greaterThan), (">=", .greaterThanOrEqual),
-   ("contains", .contains), ("not_contains", .notContains), ("one_of", .oneOf),
-   ("not_one_of", .notOneOf), ("has_prefix", .hasPrefix), ("not_has_prefix", .notHasPrefix),
-   ("has_suffix", .hasSuffix), ("not_has_suffix", .notHasSuffix),
-   ("has_substring", .hasSubstring), ("not_has_substring", .notHasSubstring),
-   ("regex", .regexMatches), ("not_regex", .notRegexMatches)]
+  [("is_null", .isNull), ("is_not_null", .isNotNull), ("=", .bin .equals), ("!=", .bin .notEquals),
+   ("<", .bin .lessThan), ("<=", .bin .lessThanOrEqual), (">", .bin .greaterThan),
+   (">=", .bin .greaterThanOrEqual), ("contains", .bin .contains),
+   ("not_contains", .bin .notContains), ("one_of", .bin .oneOf), ("not_one_of", .bin .notOneOf),
+   ("has_prefix", .bin .hasPrefix), ("not_has_prefix", .bin .notHasPrefix),
+   ("has_suffix", .bin .hasSuffix), ("not_has_suffix", .bin .notHasSuffix),
+   ("has_substring", .bin .hasSubstring), ("not_has_substring", .bin .notHasSubstring),
+   ("regex", .bin .regexMatches), ("not_regex", .bin .notRegexMatches)]
 
 /-- `match op.as_ref() { .. }` (`none` = `unknown_op_name`). -/
 def filterOpOfName (op : String) : Option FilterOp :=
   (filterOpTable.find? (fun e => e.1 == op)).map (·.2)
 
-def FilterOp.isUnary : FilterOp → Bool
-  | .isNull | .isNotNull => true
-  | _ => false
+/-- `match &op_argument.node { Value::String(s) => Ok(s), _ => Err(..) }`. -/
+def stringArgument : GValue → PRes String
+  | .str s => .ok s
+  | _ => .err .InappropriateTypeForDirectiveArgument
+
+/-- The `value` argument of `@filter` (directives.rs:80–152). -/
+def filterValueArgument : Option GValue → PRes (List OpArg)
+  | some (.list l) => parseOperands l
+  | some (.str _) => .err .FilterExpectsListNotString
+  | some _ => .err .InappropriateTypeForDirectiveArgument
+  | none => .ok []
+
+/-- directives.rs:154–194: argument count check, then the operator table. -/
+def expectedArgCount (op : String) : Nat :=
+  if op == "is_null" || op == "is_not_null" then 0 else 1
+
+/-- directives.rs:158–194. -/
+def filterOperation (op : String) (parsedArgs : List OpArg) : PRes FilterDirective :=
+  if parsedArgs.length != expectedArgCount op then .err .OtherError
+  else
+    match filterOpOfName op with
+    | none => .err .UnsupportedFilterOperator
+    | some .isNull => .ok .isNull
+    | some .isNotNull => .ok .isNotNull
+    | some (.bin b) =>
+      -- `parsed_args.pop().unwrap()`
+      match parsedArgs.getLast? with
+      | some a => .ok (.binary b a)
+      | none => .panic .filterPop
 
 /-- `impl TryFrom<&Positioned<Directive>> for FilterDirective`. -/
 def parseFilter (d : Directive) : PRes FilterDirective := do
   let opArgument ← Res.ofOption .MissingRequiredDirectiveArgument (getArg d.args "op")
-  let op ← match opArgument with
-    | .str s => Res.ok s
-    | _ => .err .InappropriateTypeForDirectiveArgument
+  let op ← stringArgument opArgument
   if d.args.any (fun a => !(a.name == "op" || a.name == "value")) then
     .err .UnrecognizedDirectiveArgument
-  else
-    let parsedArgs ← match getArg d.args "value" with
-      | some (.list l) => parseOperands l
-      | some (.str _) => .err .FilterExpectsListNotString
-      | some _ => .err .InappropriateTypeForDirectiveArgument
-      | none => .ok []
-    let expected := if op == "is_null" || op == "is_not_null" then 0 else 1
-    if parsedArgs.length != expected then .err .OtherError
-    else
-      match filterOpOfName op with
-      | none => .err .UnsupportedFilterOperator
-      | some fop =>
-        if fop.isUnary then .ok ⟨fop, none⟩
-        else
-          -- `parsed_args.pop().unwrap()`
-          match parsedArgs.getLast? with
-          | some a => .ok ⟨fop, some a⟩
-          | none => .panic .filterPop
+  else do
+    let parsedArgs ← filterValueArgument (getArg d.args "value")
+    filterOperation op parsedArgs
 
 /-- The argument-name loop shared by `@output`, `@tag`, `@transform`, `@recurse`: the only accepted
 name is `expected`, at most once. -/
@@ -485,15 +521,16 @@ def checkSingleArgName (expected : String) : List Arg → Bool → PRes Unit
       else .err .DuplicatedDirectiveArgument
     else .err .UnrecognizedDirectiveArgument
 
-/-- The optional `name: "<string>"` argument of `@output` / `@tag`, validated. -/
-def parseOptionalName (d : Directive) (invalid : ParseErr) (site : Site) : PRes (Option String) := do
-  checkSingleArgName "name" d.args false
-  let node := getArg d.args "name"
-  let parsed : Option String ← match node with
-    | none => Res.ok none
-    | some (.str s) => .ok (some s)
-    | some _ => .err .InappropriateTypeForDirectiveArgument
-  match parsed with
+/-- `argument_node.map(|x| match &x.node { Value::String(s) => Ok(s), _ => Err(..) })` followed by
+the `match` that propagates the error. -/
+def optionalStringArgument : Option GValue → PRes (Option String)
+  | none => .ok none
+  | some (.str s) => .ok (some s)
+  | some _ => .err .InappropriateTypeForDirectiveArgument
+
+/-- `ensure_name_is_valid(..).map_err(|chars| Invalid..Name(.., argument_node.unwrap().pos))?`. -/
+def checkOptionalName (node : Option GValue) (invalid : ParseErr) (site : Site) :
+    Option String → PRes (Option String)
   | none => .ok none
   | some name =>
     if nameIsValid name then .ok (some name)
@@ -502,6 +539,12 @@ def parseOptionalName (d : Directive) (invalid : ParseErr) (site : Site) : PRes 
       match node with
       | some _ => .err invalid
       | none => .panic site
+
+/-- The optional `name: "<string>"` argument of `@output` / `@tag`, validated. -/
+def parseOptionalName (d : Directive) (invalid : ParseErr) (site : Site) : PRes (Option String) := do
+  checkSingleArgName "name" d.args false
+  let parsed ← optionalStringArgument (getArg d.args "name")
+  checkOptionalName (getArg d.args "name") invalid site parsed
 
 /-- `impl TryFrom<&Positioned<Directive>> for OutputDirective`. -/
 def parseOutput (d : Directive) : PRes OutputDirective := do
@@ -582,9 +625,9 @@ def transformGroupLoop (outs : List OutputDirective) (tags : List TagDirective)
   | .tag t :: rest => transformGroupLoop outs (t :: tags) filts rest
   | .transform :: rest => do
     -- `break Some(Box::new(make_transform_group(xform, directive_iter)?))`
-    let (inner, left) ← transformGroupLoop [] [] [] rest
-    match left with
-    | [] => pure (.mk outs.reverse tags.reverse filts.reverse (some inner), [])
+    let r ← transformGroupLoop [] [] [] rest
+    match r.2 with
+    | [] => pure (.mk outs.reverse tags.reverse filts.reverse (some r.1), [])
     | _ :: _ => .panic .transformLeftover
   | .fold :: _ => .err .UnsupportedDirectivePosition
   | .optional :: _ => .err .UnsupportedDirectivePosition
@@ -597,8 +640,8 @@ def makeTransformGroup (rest : List PDir) : PRes (TransformGroup × List PDir) :
 def makeFoldGroup : List PDir → PRes FoldGroup
   | [] => .ok ⟨none⟩
   | .transform :: rest => do
-    let (g, _) ← makeTransformGroup rest
-    pure ⟨some g⟩
+    let r ← makeTransformGroup rest
+    pure ⟨some r.1⟩
   | .fold :: _ => .err .UnsupportedDuplicatedDirective
   | _ :: _ => .err .UnsupportedDirectivePosition
 
@@ -652,15 +695,20 @@ def connectionLoop (optional : Bool) (recurse : Option RecurseDirective) :
   | .output _ :: rest => connectionLoop optional recurse rest
   | .tag _ :: rest => connectionLoop optional recurse rest
 
+/-- query.rs:428–432: the fold group, when the loop ended on a `@fold`. -/
+def foldGroupAfter : Option (List PDir) → PRes (Option FoldGroup)
+  | none => .ok none
+  | some rest => do
+    let g ← makeFoldGroup rest
+    pure (some g)
+
 /-- `make_field_connection`. -/
 def makeFieldConnection (h : FieldHead) : PRes FieldConnection := do
   let arguments ← connectionArguments [] h.args
   let directives ← makeDirectives h.dirs
-  let (optional, recurse, afterFold) ← connectionLoop false none directives
-  let fold ← match afterFold with
-    | none => Res.ok none
-    | some rest => do let g ← makeFoldGroup rest; pure (some g)
-  pure ⟨h.name, h.alias, arguments, optional, recurse, fold⟩
+  let st ← connectionLoop false none directives
+  let fold ← foldGroupAfter st.2.2
+  pure ⟨h.name, h.alias, arguments, st.1, st.2.1, fold⟩
 
 /-- The directive loop of `make_field_node` (query.rs:300–315): collects filters/outputs/tags
 until the first `@transform`; the result carries what follows it. Accumulators are reversed. -/
@@ -683,23 +731,28 @@ def Selection.isInline : Selection → Bool
   | .inline .. => true
   | _ => false
 
+/-- query.rs:317–321: the transform group, when the loop ended on a `@transform`. -/
+def transformGroupAfter : Option (List PDir) → PRes (Option TransformGroup)
+  | none => .ok none
+  | some rest => do
+    let r ← makeTransformGroup rest
+    pure (some r.1)
+
 /-- The directive part of `make_field_node` (query.rs:294–321). -/
 def nodeDirectives (dirs : List Directive) :
     PRes (List FilterDirective × List OutputDirective × List TagDirective × Option TransformGroup) := do
   let directives ← makeDirectives dirs
-  let (filts, outs, tags, afterTransform) := nodeLoop [] [] [] directives
-  let tg ← match afterTransform with
-    | none => Res.ok none
-    | some rest => do let (g, _) ← makeTransformGroup rest; pure (some g)
-  pure (filts, outs, tags, tg)
+  let st := nodeLoop [] [] [] directives
+  let tg ← transformGroupAfter st.2.2.2
+  pure (st.1, st.2.1, st.2.2.1, tg)
 
 /-- The tail of `make_field_node` once the selections to descend into are known: directives first
 (query.rs:294–321), then the loop over the selections (whose result is passed in), then the node. -/
 def assembleNode (h : FieldHead) (coercedTo : Option String)
     (conns : PRes (List (FieldConnection × FieldNode))) : PRes FieldNode := do
-  let (filts, outs, tags, tg) ← nodeDirectives h.dirs
+  let ds ← nodeDirectives h.dirs
   let conns ← conns
-  pure (.mk h.name h.alias coercedTo filts outs tags conns tg)
+  pure (.mk h.name h.alias coercedTo ds.1 ds.2.1 ds.2.2.1 conns ds.2.2.2)
 
 /-- The outcome of query.rs:246–269 when the selection set is *not* exactly one inline fragment:
 `none` = go on with the field's own selections. -/
@@ -717,17 +770,16 @@ that the recursion is structural; `makeFieldNode` below is the same text). -/
 def makeConnection : Selection → PRes (FieldConnection × FieldNode)
   | .spread _ _ => .err .UnsupportedSyntax
   | .inline _ _ _ => .err .NestedTypeCoercion
-  | .field h sels => do
-    let edge ← makeFieldConnection h
+  | .field h sels =>
     let all := makeConnections sels
-    let vertex ←
+    let vertex : PRes FieldNode :=
       match sels with
       | [.inline typeCond _ inner] => assembleNode h typeCond (makeConnections inner)
       | _ =>
         match selectionGuard sels with
         | some r => r
         | none => assembleNode h none all
-    pure (edge, vertex)
+    makeFieldConnection h >>= fun edge => vertex >>= fun v => pure (edge, v)
 /-- The loop over `field_selections` in `make_field_node`. -/
 def makeConnections : List Selection → PRes (List (FieldConnection × FieldNode))
   | [] => .ok []
